@@ -18,3 +18,32 @@ mod escape;
 mod js_bindings;
 mod path;
 mod proc_gen;
+
+/// Verification hooks: re-exports of crate-private pure helpers (compiled only with `--cfg glass_easel_verif`).
+#[cfg(glass_easel_verif)]
+pub mod verif_hooks {
+    pub fn gen_lit_str(s: &str) -> String {
+        crate::escape::gen_lit_str(s)
+    }
+    pub fn escape_html_body(s: &str) -> String {
+        crate::escape::escape_html_body(s).into_owned()
+    }
+    pub fn escape_html_quote(s: &str) -> String {
+        crate::escape::escape_html_quote(s).into_owned()
+    }
+    pub fn dash_to_camel(s: &str) -> String {
+        crate::escape::dash_to_camel(s).to_string()
+    }
+    pub fn path_normalize(p: &str) -> String {
+        crate::path::normalize(p)
+    }
+    pub fn path_resolve(base: &str, rel: &str) -> String {
+        crate::path::resolve(base, rel)
+    }
+    pub fn get_var_name(id: usize) -> String {
+        crate::proc_gen::verif_get_var_name(id)
+    }
+    pub fn entities_decode(s: &str) -> Option<String> {
+        crate::entities::decode(s).map(|x| x.into_owned())
+    }
+}
